@@ -157,7 +157,7 @@ def run_graph(ctx, spec, olevels, d):
             nviol += 1
             continue
         if spec["kind"] == "plain":
-            problems = [] if lines == spec["expected"] else [("wrong-output", "expected %r got %r" % (spec["expected"], lines))]
+            problems = [] if (lines == spec["expected"] or lines in spec.get("alt_expected", [])) else [("wrong-output", "expected %r got %r" % (spec["expected"], lines))]
         else:
             problems = gen.judge_trace(spec, lines)
             chk.count("initialiser_events_checked", sum(len(m["ids"]) for m in spec["mods"].values() if m["reach"]))
@@ -166,7 +166,7 @@ def run_graph(ctx, spec, olevels, d):
             chk.count("name_resolution_observations", sum(1 for l in spec["expected"] if "=" in l))
         if problems:
             laws = sorted({p[0] for p in problems})
-            chk.violation({"kind": "trace", "law": problems[0][0], "all_laws": laws, "O": O, "forms": forms_of(spec)},
+            chk.violation(dict({"kind": "trace", "law": problems[0][0], "all_laws": laws, "O": O, "forms": forms_of(spec)}, **({"case": spec["name"]} if spec["kind"] == "plain" else {})),
                           files=replay_files(spec, {"stdout.txt": rr.out, "expected.txt": "\n".join(spec["expected"]) + "\n",
                                                     "problems.json": json.dumps(problems, indent=1, ensure_ascii=False)}),
                           text="; ".join("%s: %s" % p for p in problems[:6]))
